@@ -190,7 +190,7 @@ func checkRoundTripFacts(c RTCase) (v *Violation, f rtFacts) {
 var stringCorpus = []string{
 	"a", "", " ", "a b", "\"", "\\", "/", "'", "\u0001", "\u0007", "\u0008", "\u000b", "\u000c", "\n", "\r", "\t", "\u001b", "\u007f",
 	"\u0080", "\u009f", "\u00a0", "\u00ad", "é", "\u2028", "\u2029", "\ufeff", "\ufffd", "λ", "漢", "😀", "𝄞", "\U000e0001", "\U0010ffff", "é",
-	"a\"b\\c", "\u0007x\U000e0001", "tab\there", "$x", "a.b", "a[0]", "*", "**", "last", "true",
+	"a\"b\\c", "\u0007x\U000e0001", "tab\there", "\\a", "dir\\apps", "C:\\Users\\admin", "\\U0001F600", "\\u0041", "\\\\a", "\\", "\\n", "\\x41", "a\\", "\\\"", "$x", "a.b", "a[0]", "*", "**", "last", "true",
 }
 
 func operatorTableCases() []RTCase {
@@ -434,9 +434,9 @@ func TestC02(t *testing.T) {
 	run("literal_table", literalTableCases())
 
 	cfg := GenCfg{MaxNodes: 14, HardErrPct: 5,
-		Keys:     append([]string{"a", "b", "c", "key"}, stringCorpus[:32]...),
+		Keys:     append([]string{"a", "b", "c", "key"}, stringCorpus...),
 		VarNames: []string{"x", "y", "a b", "é", "\u0007", "\U000e0001", "q\"q"},
-		Strs:     append([]string{"a", "abc", "2015-08-01"}, stringCorpus[:32]...),
+		Strs:     append([]string{"a", "abc", "2015-08-01"}, stringCorpus...),
 		Nums:     []float64{0.5, 1.5, 2.0, 4.0, 0.0, 1e3, 1e20, 1e21, 1e22, 1e-6, 1e-7, 1e308, 5e-324, 9007199254740993.0, 0.1, 123456789.125},
 	}
 	dcfg := DocCfg{}
